@@ -3,6 +3,7 @@ import MosnVerif.Drive.BufReuse
 import MosnVerif.Drive.HpackOrder
 import MosnVerif.Drive.StreamGen
 import MosnVerif.Drive.H2ClientTable
+import MosnVerif.Drive.ProxyGenDrive
 import MosnVerif.Drive.Util
 import MosnVerif.Model.StreamTableSpec
 import MosnVerif.Model.CorrelateSpec
@@ -270,6 +271,7 @@ def run (caseToks impl : List String) : String :=
   | ["h2w", side, _mode, _w, resps] => MosnVerif.Drive.HpackOrder.run side resps impl
   | ["sgen", plan] => MosnVerif.Drive.StreamGen.run plan impl
   | ["h2tbl", first, ops] => MosnVerif.Drive.H2ClientTable.run first ops impl
+  | ["pgen", timer, aEnd, rel] => MosnVerif.Drive.ProxyGenDrive.run timer aEnd rel impl
   | _ => "E E unknown-kind"
 
 end MosnVerif.Drive.C02
